@@ -173,6 +173,15 @@ type pInput struct {
 	takenAt  int64 // items taken out by the discipline when the removal returned (-1: not removed)
 	stampsMu sync.Mutex
 	ws, wc   []int64 // per item stamps (ns since scenario start), used by the real-time runs
+
+	// parked writers (saturation of inputs with a small buffer): `multi` goroutines each keep
+	// sending; whenever the bubble is quiescent all of them are parked in a send, so the next
+	// `multi` receives from the channel cannot find it empty
+	multi   int
+	mwNext  atomic.Int64
+	mwQuit  chan struct{}
+	mwWG    sync.WaitGroup
+	mwEnded bool
 }
 
 func newPInput(p uint, id, capacity, queue int) *pInput {
@@ -217,6 +226,46 @@ func (in *pInput) startWriter(abort <-chan struct{}, wg *sync.WaitGroup) {
 	}()
 }
 
+// startParked starts the parked writers (before the discipline is created).
+func (in *pInput) startParked(abort <-chan struct{}) {
+	in.mwQuit = make(chan struct{})
+	in.mwNext.Store(int64(in.next))
+	for i := 0; i < in.multi; i++ {
+		in.mwWG.Add(1)
+		go func() {
+			defer in.mwWG.Done()
+			for {
+				seq := int(in.mwNext.Add(1) - 1)
+				in.wsCount.Add(1)
+				select {
+				case in.ch <- PItem{P: in.P, Ch: in.ID, Seq: seq}:
+					in.wcCount.Add(1)
+				case <-in.mwQuit:
+					in.wsCount.Add(-1)
+					return
+				case <-abort:
+					in.wsCount.Add(-1)
+					return
+				}
+			}
+		}()
+	}
+}
+
+// endParked stops the parked writers and closes the channel (called by the stepper).
+func (in *pInput) endParked() {
+	if in.mwEnded {
+		return
+	}
+	in.mwEnded = true
+	close(in.mwQuit)
+	in.mwWG.Wait()
+	in.enq = int(in.wcCount.Load())
+	close(in.ch)
+	in.closedAt.Store(1)
+	in.closeEnq = true
+}
+
 func (in *pInput) write(n int) {
 	for i := 0; i < n; i++ {
 		in.q <- wcmd{it: PItem{P: in.P, Ch: in.ID, Seq: in.next}}
@@ -226,6 +275,10 @@ func (in *pInput) write(n int) {
 }
 
 func (in *pInput) closeLater() {
+	if in.multi > 0 {
+		in.endParked()
+		return
+	}
 	if !in.closeEnq {
 		in.closeEnq = true
 		in.q <- wcmd{close: true}
